@@ -41,6 +41,10 @@ pub struct AllocCase {
     pub outcome: Outcome,
     pub ids: bool,
     pub setpgid: bool,
+    /// Some(n): the program is named through PopenConfig::executable and
+    /// argv[0] is a different name of n bytes
+    #[serde(default)]
+    pub argv0_len: Option<u16>,
 }
 
 pub fn check_case(ctx: &Ctx, case: &AllocCase, rep: &mut CaseReport) -> CaseResult {
@@ -125,7 +129,14 @@ pub fn check_case(ctx: &Ctx, case: &AllocCase, rep: &mut CaseReport) -> CaseResu
     } else {
         OsString::from(&name)
     };
-    let mut argv = vec![command];
+    let mut executable: Option<OsString> = None;
+    let mut argv = match case.argv0_len {
+        Some(n) => {
+            executable = Some(command);
+            vec![OsString::from("z".repeat(n.max(1) as usize))]
+        }
+        None => vec![command],
+    };
     for i in 0..case.nargs {
         argv.push(OsString::from(format!("{}{}", "a".repeat(case.arg_len as usize), i)));
     }
@@ -137,7 +148,7 @@ pub fn check_case(ctx: &Ctx, case: &AllocCase, rep: &mut CaseReport) -> CaseResu
             _ => Redirection::File(std::fs::OpenOptions::new().create(true).read(true).write(true).open(sc.path(n)).unwrap()),
         }
     };
-    let cfg = PopenConfig { stdin: red(case.streams[0], "i"), stdout: red(case.streams[1], "o"), stderr: red(case.streams[2], "e"), env, cwd, setuid: if case.ids { Some(0) } else { None }, setgid: if case.ids { Some(0) } else { None }, setpgid: case.setpgid, ..Default::default() };
+    let cfg = PopenConfig { stdin: red(case.streams[0], "i"), stdout: red(case.streams[1], "o"), stderr: red(case.streams[2], "e"), env, cwd, setuid: if case.ids { Some(0) } else { None }, setgid: if case.ids { Some(0) } else { None }, setpgid: case.setpgid, executable, ..Default::default() };
 
     ip::shared_reset();
     if let Outcome::ChildFault(kind, errno) = case.outcome {
@@ -176,7 +187,7 @@ pub fn check_case(ctx: &Ctx, case: &AllocCase, rep: &mut CaseReport) -> CaseResu
     let big_len = matches!(case.outcome, Outcome::DirectLong(_)) || case.name_len >= 384 || case.cwd_len >= 384 || case.path_lens.iter().any(|l| *l >= 384) || case.arg_len >= 384;
     if big_path || !ok || big_len {
         let dim = if case.cwd_len >= 384 { "cwd" } else if case.path_lens.iter().any(|l| *l >= 384) { "path" } else if case.name_len >= 384 { "name" } else if case.nargs > 100 || case.nenv.unwrap_or(0) > 100 { "argv/env" } else { "none" };
-        rep.nontrivial(format!("large:{}|cands{}|outcome:{}|ok{}|faulthit{}", dim, if big_path { ">=2" } else { "<2" }, match case.outcome { Outcome::SuccessAt(_) => "success", Outcome::FailEverywhere => "fail-all", Outcome::ChildFault(k, _) => ["f-chdir", "f-dup2", "f-setuid", "f-setgid", "f-setpgid", "f-exec"][k as usize % 6], Outcome::DirectSuccess => "direct-ok", Outcome::DirectFail => "direct-fail", Outcome::DirectLong(l) => if l >= 4096 { "direct-long>=PATH_MAX" } else { "direct-long" } }, ok as u8, fault_hit as u8));
+        rep.nontrivial(format!("large:{}|exe{}|cands{}|outcome:{}|ok{}|faulthit{}", dim, match case.argv0_len { None => "=argv0", Some(n) if n < case.name_len => ">argv0", Some(_) => "<=argv0" }, if big_path { ">=2" } else { "<2" }, match case.outcome { Outcome::SuccessAt(_) => "success", Outcome::FailEverywhere => "fail-all", Outcome::ChildFault(k, _) => ["f-chdir", "f-dup2", "f-setuid", "f-setgid", "f-setpgid", "f-exec"][k as usize % 6], Outcome::DirectSuccess => "direct-ok", Outcome::DirectFail => "direct-fail", Outcome::DirectLong(l) => if l >= 4096 { "direct-long>=PATH_MAX" } else { "direct-long" } }, ok as u8, fault_hit as u8));
     }
     let _ = (exec_failed, will_succeed);
     if allocs > 0 {
@@ -208,8 +219,9 @@ pub fn case_strategy() -> impl Strategy<Value = AllocCase> {
         outcome,
         any::<bool>(),
         any::<bool>(),
+        prop_oneof![3 => Just(None), 1 => prop_oneof![Just(1u16), 1u16..40, 40u16..300].prop_map(Some)],
     )
-        .prop_map(|(name_len, mut path_lens, nargs, arg_len, nenv, cwd_len, streams, outcome, ids, setpgid)| {
+        .prop_map(|(name_len, mut path_lens, nargs, arg_len, nenv, cwd_len, streams, outcome, ids, setpgid, argv0_len)| {
             // rotate so that the longest entry is first / last / in the middle
             if !path_lens.is_empty() {
                 let r = (name_len as usize) % path_lens.len();
@@ -217,7 +229,7 @@ pub fn case_strategy() -> impl Strategy<Value = AllocCase> {
             }
             // keep argv below ARG_MAX
             let nargs = if (nargs as usize) * (arg_len as usize + 8) > 600_000 { 100 } else { nargs };
-            AllocCase { name_len, path_lens, nargs, arg_len, nenv, cwd_len, streams, outcome, ids, setpgid }
+            AllocCase { name_len, path_lens, nargs, arg_len, nenv, cwd_len, streams, outcome, ids, setpgid, argv0_len }
         })
 }
 
